@@ -30,7 +30,8 @@ EXTENDS Ops
 CONSTANTS WB,       \* word size (m4ri_radix)
           CUTW,     \* __M4RI_PLE_CUTOFF in words
           BLOCKT,   \* block size of the triangular solve (alg/TRSM.tla)
-          PIVRULE   \* "first" | "last": the base case's choice of the pivot row
+          PIVRULE,  \* "first" | "last": the naive base case's choice of the pivot row
+          BaseCase(_) \* the base case: a matrix |-> [A, P, Q, r] (MC_PLERec: NaiveBase; trace validation: PLERussian with the automatic k)
 
 TR == INSTANCE TRSM WITH WB <- WB, BLOCK <- BLOCKT
 
@@ -48,7 +49,7 @@ BaseLoop(S, m, n, P, Q, r, c) ==
            i == IF PIVRULE = "first" THEN SetMin(rows) ELSE SetMax(rows)
            S0 == SwapF(S, r, i)
            \* mzd_row_add_offset(A, l, row_pos, j + 1): the multiplier stays in column j of row l
-           S1 == [l \in 0 .. m - 1 |-> IF l > r /\ j \in S0[l] THEN Xor(S0[l], {x \in S0[r] : x > j}) ELSE S0[l]]
+           S1 == TLCEval([l \in 0 .. m - 1 |-> IF l > r /\ j \in S0[l] THEN Xor(S0[l], {x \in S0[r] : x > j}) ELSE S0[l]])
        IN BaseLoop(S1, m, n, [P EXCEPT ![r + 1] = i], [Q EXCEPT ![r + 1] = j], r + 1, j + 1)
 \* "compressing L": for j < r with Q[j] > j swap the columns Q[j] and j in the rows j .. m-1
 RECURSIVE BaseCompress(_, _, _, _)
@@ -58,6 +59,18 @@ BaseCompress(A, Q, r, j) ==
 Base(A) ==
   LET b == BaseLoop(A.r, A.m, A.n, IdSeq(A.m), IdSeq(A.n), 0, 0)
   IN [A |-> BaseCompress(Mat(A.m, A.n, b.S), b.Q, b.r, 0), P |-> b.P, Q |-> b.Q, r |-> b.r]
+
+\* ---- _mzd_pluq_naive: pivot search from (curr, curr), row and full column swap, elimination from curr+1 on ---------
+RECURSIVE PluqNaiveLoop(_, _, _, _)
+PluqNaiveLoop(A, P, Q, cp) ==
+  LET cands == UNION {{x \in A.r[i] : x >= cp} : i \in cp .. A.m - 1} IN
+  IF cp >= A.n \/ cp >= A.m \/ cands = {} THEN [A |-> A, P |-> P, Q |-> Q, r |-> cp]
+  ELSE LET j == SetMin(cands)
+           i == SetMin({x \in cp .. A.m - 1 : j \in A.r[x]})
+           A1 == ColSwap(RowSwap(A, cp, i), cp, j)
+           A2 == Mat(A.m, A.n, [l \in Rows(A) |-> IF l > cp /\ cp \in A1.r[l] THEN Xor(A1.r[l], {x \in A1.r[cp] : x > cp}) ELSE A1.r[l]])
+       IN PluqNaiveLoop(A2, [P EXCEPT ![cp + 1] = i], [Q EXCEPT ![cp + 1] = j], cp + 1)
+PluqNaive(A) == PluqNaiveLoop(A, IdSeq(A.m), IdSeq(A.n), 0)
 
 \* ---- _mzd_compress_l(A, r1, n1, r2) at the level of matrix values -------------------------
 RECURSIVE SwapCols(_, _, _, _, _)
@@ -77,7 +90,7 @@ RECURSIVE Ple(_)
 Ple(A) ==
   LET m == A.m  n == A.n  nr == FirstZeroRowSem(A) IN
   IF nr = 0 THEN [A |-> A, P |-> IdSeq(m), Q |-> IdSeq(n), r |-> 0]
-  ELSE IF n <= WB \/ WidthOf(n) * m <= CUTW THEN Base(A)
+  ELSE IF n <= WB \/ WidthOf(n) * m <= CUTW THEN BaseCase(A)
   ELSE
     LET n1 == SplitCol(n)
         R1 == Ple(Sub(A, 0, 0, nr, n1))
@@ -95,9 +108,9 @@ Ple(A) ==
         r2 == R2.r
         Ac == Embed(Ab, r1, n1, R2.A)
         Ad == Embed(Ac, r1, 0, ApplyPLeft(Sub(Ac, r1, 0, nr - r1, r1), R2.P))      \* mzd_apply_p_left(A10, P2)
-        P == [i \in 1 .. m |-> IF i <= r1 THEN R1.P[i] ELSE IF i <= nr THEN R2.P[i - r1] + r1 ELSE i - 1]
+        P == TLCEval([i \in 1 .. m |-> IF i <= r1 THEN R1.P[i] ELSE IF i <= nr THEN R2.P[i - r1] + r1 ELSE i - 1])
         Qa == [i \in 1 .. n |-> IF i <= n1 THEN R1.Q[i] ELSE R2.Q[i - n1] + n1]
-        Q == [i \in 1 .. n |-> IF i > r1 /\ i <= r1 + r2 THEN Qa[n1 + (i - r1)] ELSE Qa[i]]
+        Q == TLCEval([i \in 1 .. n |-> IF i > r1 /\ i <= r1 + r2 THEN Qa[n1 + (i - r1)] ELSE Qa[i]])
     IN [A |-> CompressL(Ad, r1, n1, r2), P |-> P, Q |-> Q, r |-> r1 + r2]
 
 \* ---- _mzd_pluq ---------------------------------------------------------------------------------
